@@ -207,7 +207,7 @@ def classify(parsed, out, rc, harness):
 
 def _kani_cmd(unit, harness, extra=()):
     return (["cargo", "kani", "-p", unit.crate] + unit.kani_args + harness.extra_args +
-            ["--harness", harness.qualname, "--exact", "--output-format", "terse"] + list(extra))
+            ["--harness", harness.qualname, "--exact", "--output-format", os.environ.get("VERIF_KANI_FORMAT", "terse")] + list(extra))
 
 
 def _extract_playback_tests(out):
